@@ -129,7 +129,7 @@ Definition dyn_cb (ok : bool) (size : nat) (d : dst) : option (dst * bool) :=
       | None => None
       end
     else
-      (* FREEMEM(arg->buffer); memset(arg, 0, sizeof(*arg)); return -1; *)
+      (* FREEMEM(arg->buffer); the key is cleared; return -1 *)
       match buf d with
       | Some b => match lfree (dlive d) b with
                   | Some l => Some (Dst l (dnext d) None 0 0 (S (nreq d)), false)
